@@ -69,6 +69,13 @@ def subsumption(check: Check, repo: Repo) -> None:
         if has is None or add is None:
             raise AnalysisError(f"{cls_name}.has/add missing")
         params = [a.arg for a in has.args.args][1:]
+        add_params = [a.arg for a in add.args.args][1:]
+        if len(params) < 3 or len(add_params) < 3:
+            # the memo no longer distinguishes the two strengths of a comparison at all
+            check.ob(rule, has, f"{cls_name}.has/add take the exclusivity flag", False,
+                     f"has({', '.join(params)}) / add({', '.join(add_params)}) carry no flag: a comparison made under mutually "
+                     "exclusive parents (which skips the argument / name checks) is served for a later comparison under overlapping parents")
+            continue
         flag = params[2]
         want = {(True, True): True, (True, False): True, (False, False): True, (False, True): False}
         for (q, stored), expect in want.items():
